@@ -327,7 +327,10 @@ class Inotify:
                         events.append(e)
                 for filename in filenames:
                     full_path = os.path.join(root, filename)
-                    wd_parent_dir = self._wd_for_path[os.path.dirname(full_path)]
+                    wd_parent_dir = self._wd_for_path.get(os.path.dirname(full_path))
+                    if wd_parent_dir is None:
+                        # The watch for that directory could not be added (e.g. ENOSPC).
+                        continue
                     e = InotifyEvent(
                         wd_parent_dir,
                         InotifyConstants.IN_CREATE,
